@@ -742,6 +742,27 @@ class Interp:
             return [(st, AV("list", (), truth=False, none=False))], []
         if isinstance(node, ast.JoinedStr) and not self.rule.wants_compose:
             return [(st, AV("unk", truth=None, none=False))], []
+        if isinstance(node, ast.Dict) and None in node.keys and all(isinstance(k, ast.Constant) for k in node.keys if k is not None):
+            # {"a": x, **rest}: a mapping whose explicit string keys are known; `rest` may add further keys.  A splat that comes
+            # AFTER an explicit key could override it - unless it is this function's own **kwargs (a caller cannot pass a named
+            # parameter of the function through **kwargs) or a closed dict that does not contain the key.
+            cur, raises = [(st, {}, False)], []
+            for k, v in zip(node.keys, node.values):
+                nxt = []
+                for s, acc, open_ in cur:
+                    vals, r = self.eval(s, v)
+                    raises += r
+                    for s2, av in vals:
+                        if k is not None:
+                            nxt.append((s2, {**acc, k.value: av}, open_))
+                        elif av.kind == "dict" and not av.val[1]:
+                            nxt.append((s2, {**acc, **dslots(av)}, open_))
+                        elif av.kind == "dict" and av.sym and av.sym.startswith("p:") and not dslots(av):
+                            nxt.append((s2, dict(acc), True))  # own **kwargs: adds keys, overrides none of the named ones
+                        else:
+                            nxt.append((s2, {}, True))  # anything may have been overridden
+                cur = nxt
+            return [(s, dict_av(acc, open_=open_)) for s, acc, open_ in cur], raises
         if isinstance(node, ast.Dict) and all(isinstance(k, ast.Constant) for k in node.keys if k is not None) and None not in node.keys:
             cur, raises = [(st, {})], []
             for k, v in zip(node.keys, node.values):
@@ -797,6 +818,9 @@ class Interp:
                     if k.arg is None and av.kind == "dict" and not av.val[1] and "**" not in kw:
                         # f(**{"a": x, "b": y}) with a closed dictionary built earlier is f(a=x, b=y)
                         nxt.append((s2, pos, {**kw, **{kk: vv for kk, vv in dslots(av).items() if kk not in kw}}))
+                    elif k.arg is None and av.kind == "dict" and av.val[1] and dslots(av) and all(isinstance(kk, str) for kk in dslots(av)) and "**" not in kw:
+                        # an open mapping with known string keys: those are keyword arguments, the rest stays a splat
+                        nxt.append((s2, pos, {**kw, **{kk: vv for kk, vv in dslots(av).items() if kk not in kw}, "**": dict_av({}, True, sym=av.sym)}))
                     else:
                         nxt.append((s2, pos, {**kw, (k.arg or "**"): av}))
             cur = nxt
@@ -1724,10 +1748,15 @@ def compute_relevant(funcs, is_event, obj_args=lambda call: []):
                         R |= names_in(a)
                 if isinstance(n, (ast.If, ast.While)) and region_hot(n.body + n.orelse):
                     R |= names_in(n.test)
-                if isinstance(n, ast.Assign) and any(tgt_names(t) & R for t in n.targets):
+                if isinstance(n, (ast.Assign, ast.AnnAssign)) and n.value is not None and any(tgt_names(t) & R for t in (n.targets if isinstance(n, ast.Assign) else [n.target])):
                     v = n.value
                     if isinstance(v, (ast.Name, ast.Attribute, ast.IfExp, ast.BoolOp, ast.UnaryOp, ast.Compare, ast.Tuple)):
                         R |= names_in(v)
+                    elif isinstance(v, ast.Dict):
+                        # a mapping display that is later splatted into an event call: its values are arguments of that call
+                        for dv in v.values:
+                            if isinstance(dv, (ast.Name, ast.Attribute, ast.IfExp, ast.BoolOp, ast.UnaryOp, ast.Compare)):
+                                R |= names_in(dv)
                 if isinstance(n, ast.Return) and n.value is not None and isinstance(n.value, (ast.BoolOp, ast.IfExp, ast.Name)):
                     R |= names_in(n.value)
         changed = len(R) != before
